@@ -298,6 +298,7 @@ func runC10(env *Env, s Scenario) {
 	out := env.K.Run(done, sc.Deadline(), Micro(sc.ReadDelayUS)*20+time.Millisecond)
 	env.Finish(out)
 	sc.BaseEmitted = sr.OpenRec.EmittedAtEnd
+	c11Writes, c11Emitted = sr.Tr.NWrites(), sr.Tr.Emitted()
 	env.Context = func() string { return sr.Summary() + fmt.Sprintf("plan: %+v\ndevice log: %q\n", *sc.Plan, sr.Dev.Log) }
 	env.Res.Shape = fmt.Sprintf("%s asks=%s end=%s stall=%d seg=%s lat=%s rd=%d", sc.Auth, strings.Join(sc.Plan.Asks, ","), sc.Plan.End, sc.F.StallAt, sc.Net.SegMode, sc.Net.LatMode, sc.ReadDelayUS)
 	env.Res.Nontrivial = true
